@@ -69,6 +69,7 @@ type udpSock struct {
 	cpeer     int         // ... to this peer (index into udpPeers4/6)
 	cport     uint16      // ... and port
 	reads     int
+	lastOut   *Frame // the datagram this socket emitted last (what an ICMP error would quote)
 }
 
 type udpWorld struct {
@@ -374,6 +375,7 @@ func (w *udpWorld) write(si, n, dstSel int) {
 		w.Fail("write-not-one-packet", "", "a successful Write of %d bytes produced a packet that does not decode: %v", n, d.Err)
 		return
 	}
+	s.lastOut = d.F
 	wantDst := dst
 	if len(dst) == 16 && bytes.HasPrefix([]byte(dst), []byte("\x00\x00\x00\x00\x00\x00\x00\x00\x00\x00\xff\xff")) {
 		wantDst = dst[12:]
@@ -390,7 +392,7 @@ func (w *udpWorld) write(si, n, dstSel int) {
 }
 
 func (w *udpWorld) apply(s Step) {
-	if s.Op == "read" || s.Op == "drain" || s.Op == "shutr" || s.Op == "close" || s.Op == "write" || s.Op == "open" || s.Op == "connect" {
+	if s.Op == "read" || s.Op == "drain" || s.Op == "shutr" || s.Op == "close" || s.Op == "write" || s.Op == "open" || s.Op == "connect" || s.Op == "icmperr" || s.Op == "failbind" {
 		// the simulator's own socket calls are ordered after everything posted so
 		// far (posted reads, arrivals still in the receive goroutine's inbox)
 		w.Settle()
@@ -471,6 +473,60 @@ func (w *udpWorld) apply(s Step) {
 			}
 			w.Settle()
 		}
+	case "icmperr":
+		// the destination of the socket's last datagram reports "port unreachable", quoting it: whatever
+		// the following Reads report, they must not hand out a datagram nobody sent
+		if s.A >= 0 && s.A < len(w.socks) {
+			sk := w.socks[s.A]
+			if sk.closed || sk.lastOut == nil || len(sk.lastOut.Data) < 28 {
+				break
+			}
+			q := sk.lastOut.Data
+			if q[0]>>4 == 4 {
+				ihl := int(q[0]&15) * 4
+				if len(q) > ihl+8 {
+					q = q[:ihl+8]
+				}
+				w.InjectIP(false, tcpip.Address(sk.lastOut.Data[16:20]), tcpip.Address(sk.lastOut.Data[12:16]), codec.ProtoICMP, codec.EncodeICMPv4(3, 3, 0, q), 0)
+			} else {
+				if len(q) > 600 {
+					q = q[:600]
+				}
+				src, dst := sk.lastOut.Data[24:40], sk.lastOut.Data[8:24]
+				w.InjectIP(true, tcpip.Address(src), tcpip.Address(dst), codec.ProtoICMPv6, codec.EncodeICMPv6(src, dst, 1, 4, 0, q), 0)
+			}
+			w.Probes["icmp_errors_for_sent_datagrams"]++
+			w.Settle()
+			for i := 0; i < 3; i++ {
+				w.read(s.A)
+			}
+		}
+	case "failbind":
+		// a bind whose commit step fails, with a datagram for that port arriving while the commit runs:
+		// the socket never owned the port, so it must never return that datagram - also not once it
+		// is bound elsewhere
+		ep, err := w.S.S.NewEndpoint(udp.ProtocolNumber, ipv4.ProtocolNumber, &waiter.Queue{})
+		must(err, "udp NewEndpoint")
+		p1, p2 := uint16(7300+s.A%200), uint16(7600+s.A%200)
+		w.narr++
+		payload := udpPayload(w.seed, w.narr, 20+s.B%100)
+		e := ep.Bind(tcpip.FullAddress{Addr: A4, Port: p1}, func() *tcpip.Error {
+			w.InjectIP(false, udpPeers4[0], A4, codec.ProtoUDP, codec.EncodeUDP([]byte(udpPeers4[0]), []byte(A4), 9000, p1, payload), 0)
+			return tcpip.ErrNoRoute
+		})
+		w.Settle()
+		if e == nil {
+			w.Fail("socket-setup-failed", "", "Bind succeeded although its commit step failed")
+		}
+		if e := ep.Bind(tcpip.FullAddress{Addr: A4, Port: p2}, nil); e == nil {
+			if v, _, err := ep.Read(nil); err == nil {
+				w.Fail("datagram-for-another-socket", "", "a socket bound to port %d returned a %d-byte datagram that was sent to port %d (which it tried to bind, and failed)", p2, len(v), p1)
+			}
+		}
+		w.Probes["binds_failing_at_commit"]++
+		ep.Close()
+		w.Settle()
+		w.Take()
 	case "linkfault":
 		// the device refuses the next frame(s): a write hitting it must fail, not pretend
 		w.S.Link.FailWrites = 1 + s.A%2
@@ -502,7 +558,11 @@ func (w *udpWorld) next() Step {
 	if r.Chance(0.06) {
 		return Step{Op: "tsopt", A: si, B: r.Intn(2)}
 	}
-	switch r.Pick(10, 3, 2, 6, 2, 3, 1, 1, 2, 1, 1) {
+	switch r.Pick(10, 3, 2, 6, 2, 3, 1, 1, 2, 1, 1, 1, 1) {
+	case 11:
+		return Step{Op: "icmperr", A: si}
+	case 12:
+		return Step{Op: "failbind", A: r.Intn(200), B: r.Intn(100)}
 	case 9:
 		return Step{Op: "connect", A: si, B: r.Intn(4)}
 	case 10:
